@@ -211,6 +211,8 @@ def job_write(job, workdir):
         if entry == 'ndarray':
             data = arrays[0] if (len(arrays) == 1 and job.get('single')) else tuple(arrays)
             sn = names[0] if (len(arrays) == 1 and job.get('single')) else tuple(names)
+            if job.get('default_names'):
+                sn = None           # structnames=None: the writer names the tables itself
             par = write_ndarray_to_yanny(path, data, structnames=sn, enums=enums, hdr=hdr, comments=list(doc['comments']))
             return dump_yanny(par)
         tb = Table(arrays[0])
@@ -275,6 +277,73 @@ def job_read(job, workdir):
     return res
 
 
+def job_floattext(job, workdir):
+    """str(np.float32/64(x)) and float(text) for raw bit patterns (the two float-text oracles, observed)."""
+    out = []
+    for code, bits in job['values']:
+        x = bits_to_float(code, bits)
+        t = str(x)
+        y = float(t)
+        y = np.float32(y) if code == 'f4' else np.float64(y)
+        out.append({'text': t, 'back_bits': float_to_bits(y, 4 if code == 'f4' else 8)})
+    return {'id': job['id'], 'values': out}
+
+
+def job_glue(job, workdir):
+    """Entry-point glue of write_ndarray_to_yanny / write_table_yanny / read_table_yanny: refusals and options."""
+    from pydl.pydlutils import PydlutilsException
+    res = {'id': job['id'], 'obs': {}}
+    a = np.zeros((2,), dtype=[('x', 'i4'), ('s', 'S3')])
+    a['x'] = [1, -2]
+    a['s'] = [b'ab', b'c d']
+    o = res['obs']
+
+    def path(n):
+        p = os.path.join(workdir, 'glue_%s.par' % n)
+        if os.path.exists(p):
+            os.remove(p)
+        return p
+
+    def exc_of(f):
+        try:
+            f()
+            return None
+        except BaseException as e:  # noqa: BLE001
+            return type(e).__name__
+    # 1. more tables than names
+    p = path('mismatch')
+    o['names_mismatch'] = {'exc': exc_of(lambda: write_ndarray_to_yanny(p, (a, a), structnames=('ONE',))), 'file': os.path.exists(p)}
+    # 2. the file exists already: refused, content untouched
+    p = path('exists')
+    write_ndarray_to_yanny(p, a, structnames='T')
+    before = open(p, 'rb').read()
+    o['file_exists'] = {'exc': exc_of(lambda: write_ndarray_to_yanny(p, a, structnames='OTHER')), 'same': open(p, 'rb').read() == before}
+    o['table_exists'] = {'exc': exc_of(lambda: write_table_yanny(Table(a), p, tablename='OTHER')), 'same': open(p, 'rb').read() == before}
+    # 3. overwrite=True replaces the file and the new one reads back
+    b = a.copy()
+    b['x'] = [7, 8]
+    o['overwrite'] = {'exc': exc_of(lambda: write_table_yanny(Table(b), p, tablename='NEW', overwrite=True))}
+    try:
+        par = yanny(p)
+        o['overwrite']['tables'] = par.tables()
+        o['overwrite']['x'] = [int(v) for v in par['NEW']['x']]
+    except BaseException as e:  # noqa: BLE001
+        o['overwrite']['reread_exc'] = type(e).__name__
+    # 4. read_table_yanny: the table name is required, an unknown one is a KeyError
+    o['read_noname'] = {'exc': exc_of(lambda: read_table_yanny(p))}
+    o['read_unknown'] = {'exc': exc_of(lambda: read_table_yanny(p, 'NOSUCH'))}
+    o['read_lowercase'] = {'exc': exc_of(lambda: read_table_yanny(p, 'new'))}
+    # 5. unsupported column types through the Table route: refused, nothing written
+    for code in ('b1', 'u2', 'i1', 'f2', 'c8'):
+        p = path('unsup_' + code)
+        t = Table(np.zeros((1,), dtype=[('x', 'i4'), ('q', code)]))
+        o['table_unsupported_' + code] = {'exc': exc_of(lambda: write_table_yanny(t, p, tablename='U')), 'file': os.path.exists(p)}
+        p = path('unsupw_' + code)
+        o['tablewrite_unsupported_' + code] = {'exc': exc_of(lambda: t.write(p, format='yanny', tablename='U')), 'file': os.path.exists(p)}
+    o['exception_class'] = PydlutilsException.__name__
+    return res
+
+
 def main():
     req = json.load(sys.stdin)
     workdir = req['workdir']
@@ -285,6 +354,10 @@ def main():
             results.append(job_write(job, workdir))
         elif job['kind'] == 'read':
             results.append(job_read(job, workdir))
+        elif job['kind'] == 'floattext':
+            results.append(job_floattext(job, workdir))
+        elif job['kind'] == 'glue':
+            results.append(job_glue(job, workdir))
         else:
             results.append({'id': job.get('id'), 'error': 'bad job'})
     json.dump({'pydl_file': pydl.__file__, 'numpy': np.__version__, 'results': results}, sys.stdout)
